@@ -57,6 +57,17 @@ def cancel_partner(r, a):
     k = r.below(110)
     if k == 0:
         return (-h, -l)
+    if k < 20 and k >= 12 and h != 0:
+        # ~106 bits of cancellation: adjacent (or equal) high words of opposite sign, both low words at / next to the half-ulp limit
+        nh = -h
+        for _ in range(r.below(3)):
+            nh = math.nextafter(nh, r.choice([math.inf, -math.inf]))
+        u = fp.ulp(nh)
+        lim = fp.rn(u / 2)
+        nl = r.choice([lim, math.nextafter(lim, 0.0), fp.rn(u / 4), math.nextafter(fp.rn(u / 4), 0.0), math.nextafter(fp.rn(u / 4), math.inf)]) * r.choice([1, -1])
+        if fp.is_valid(nh, nl):
+            return (nh, nl)
+        return (nh, -l) if fp.is_valid(nh, -l) else (-h, -l)
     if k < 12 and h != 0:
         # high words cancel exactly, the low words are unrelated (different magnitudes, spanning > 53 bits)
         u = fp.ulp(h)
@@ -237,10 +248,33 @@ def short_pairs(r, n, emin, emax):
         b = (y, lb) if fp.is_valid(y, lb) else (y, 0.0)
         yield a, b
 
+def worst_mul_pairs(r, n, emin, emax):
+    """low word just inside the half-ulp limit, and a factor that puts hi*f right next to a power of two
+    (where the relative weight of every rounding error is largest)"""
+    for _ in range(n):
+        h = fp.mant_exp(r, r.rng(emin, emax - 1))
+        half = fp.rn(fp.ulp(h) / 2)
+        l = math.nextafter(half, 0.0) * r.choice([1, -1])
+        for _k in range(r.below(4)):
+            l = math.nextafter(l, 0.0)
+        a = (h, l) if fp.is_valid(h, l) else (h, 0.0)
+        f = fp.rn(Fr(2) ** r.rng(-40, 40) / Fr(h))
+        if r.below(2):
+            for _k in range(r.below(12)):
+                f = math.nextafter(f, math.inf if h > 0 else -math.inf)
+        else:
+            # wide variant: product a few percent above the power of two, low word within ~2% of the limit, full mantissas
+            f = fp.rn(Fr(f) * (1 + Fr(r.rng(0, 2**40), 2**40) / 16))
+            l = fp.rn(Fr(half) * (1 - Fr(r.rng(0, 2**40), 2**40) / 50)) * r.choice([1, -1])
+            a = (h, l) if fp.is_valid(h, l) else a
+        lb = r.choice([0.0, fp.rn(fp.ulp(f) / 2) * r.choice([1, -1]), math.nextafter(fp.rn(fp.ulp(f) / 2), 0.0) * r.choice([1, -1])])
+        b = (f, lb) if fp.is_valid(f, lb) else (f, 0.0)
+        yield a, b
+
 def gen_C04(r, n):
     c = Cases()
     import itertools
-    for a, b in itertools.chain(arith_pairs(r, n, -450, 450), short_pairs(r, n // 2, -300, 300)):
+    for a, b in itertools.chain(arith_pairs(r, n, -450, 450), short_pairs(r, n // 2, -300, 300), worst_mul_pairs(r, n, -300, 300)):
         c.add('%s %s %s' % (TT('Mul'), w2(a), w2(b)), kind='tt')
         c.add('%s %s %s' % (asgname('Mul', 'rTwoFloat'), w2(a), w2(b)), kind='tt')
         f = b[0] if b[0] != 0 or r.below(2) else 1.5
@@ -305,7 +339,7 @@ def pow2_divisors(r, n):
 def gen_C05(r, n):
     c = Cases()
     import itertools
-    for a, b in itertools.chain(arith_pairs(r, n, -450, 450), pow2_divisors(r, n // 3), short_pairs(r, n // 3, -300, 300)):
+    for a, b in itertools.chain(arith_pairs(r, n, -450, 450), pow2_divisors(r, n // 3), short_pairs(r, n // 3, -300, 300), worst_mul_pairs(r, n // 3, -300, 300)):
         if b[0] == 0:
             b = (1.5, 0.0)
         a = a if a[0] != 0 or r.below(4) else (3.0, 0.0)
@@ -930,6 +964,11 @@ def gen_C01(r, n, pool=None):
         sub = gen_C09(r, max(10, n // 400))
         for ln, m in zip(sub.lines, sub.meta):
             if m['kind'] == 'from':
+                c.add(ln, op=ln.split()[0])
+        # checked construction from arbitrary word pairs (threshold grid of C07): whatever is accepted must be valid
+        sub = gen_C07(r, max(50, n // 40))
+        for ln, m in zip(sub.lines, sub.meta):
+            if m['kind'] == 'try':
                 c.add(ln, op=ln.split()[0])
     return c
 
